@@ -16,6 +16,7 @@ RULE = ("lattice of module instances (pmc/modspecs.py: constructor options x gri
         "central differences with a convergence test otherwise (DERIV). Non-trivial = at least one non-zero Jacobian entry; "
         "distinct by descriptor")
 RULE += " Extended in seeding rounds 6-7:  seeds that copy an input state, dyadic seeds (no dyads / two dyads) on sparse outputs, complex-typed loads holding real values, matrix-shaped aggregation inputs."
+RULE += " Round 8: complex matrix with an uncoupled dof and a non-real diagonal entry."
 ASSUMPTIONS = ["numerical derivatives: Richardson (4D(h/2)-D(h))/3 accepted only if two step sizes agree to 1e-6*scale, "
                "independent of the analytic value; unconverged points are inconclusive, never violations",
                "matrix inputs are perturbed only inside the class the module detected or was told (symmetric pairs, "
